@@ -1,5 +1,6 @@
 #!/bin/bash
-# Pins vf/llsym/rust/oracle.rs against the nightly's real rustc_parse_format: tools/pin_oracle.sh <max chars>
+# Pins vf/llsym/rust/oracle.rs against the nightly's real rustc_parse_format: tools/pin_oracle.sh <max chars> [max length of the structured language]
+# (all short strings, plus every literal of the constrained passes of the C03 exploration - tools/gen_oracle_extra.py)
 # Writes .state/oracle_pin.json.  Exit 0 = agree, 1 = disagreement, 3 = validator could not be built (no verdict).
 cd "$(dirname "$0")/.."
 N=${1:-5}
@@ -10,7 +11,9 @@ if [ -z "$S" ] || ! (cd $V && CARGO_NET_OFFLINE=true cargo +nightly build --rele
   echo '{"status": "not-built", "note": "nightly rustc-dev not usable; the oracle restatement is unpinned in this environment"}' > .state/oracle_pin.json
   echo "pin_oracle: validator could not be built (see /tmp/pin_oracle_build.log)"; exit 3
 fi
-OUT=$(LD_LIBRARY_PATH=$S/lib $V/target/release/oracle-validator $N 2>&1); RC=$?
+EXTRA=.state/oracle_extra.txt
+python3-vt tools/gen_oracle_extra.py $EXTRA ${2:-9} >/dev/null 2>&1 || EXTRA=
+OUT=$(LD_LIBRARY_PATH=$S/lib $V/target/release/oracle-validator $N $EXTRA 2>&1); RC=$?
 echo "$OUT" | tail -3
 python3 - "$RC" "$N" "$OUT" <<'PY'
 import json,sys,time
